@@ -65,6 +65,13 @@ def count_violations(fnode):
 def run(ctx):
     R = ctx.R
     fi = ctx.fn("bits.p2p.write_blocks_to_disk")
+    # no hidden state: the functions this property is about (and what they call) do not write module-level state, so a
+    # verdict cannot depend on the history of earlier calls
+    hs = rules.hidden_state(ctx.prog, [ctx.fn(q) for q in ("bits.p2p.write_blocks_to_disk",)])
+    R.check("C19.1", "OWN", ctx.fn("bits.p2p.write_blocks_to_disk"), "no module-level state is written on these paths (results do not depend on earlier calls)", not hs,
+            "%s %s" % ((hs[0][0].qualname, hs[0][2]) if hs else ("", "")), line=hs[0][1].lineno if hs else None,
+            example="the same call repeated in one process after a call with other arguments / a failed call")
+
     # ---- OWN: over the function and every package function it (transitively) calls -- the store may live in a helper,
     # a class or another module
     nodes, seen_q = [fi.node], {fi.qualname}
